@@ -202,7 +202,7 @@ def blank_out():
     return {"raised": False, "exc": "", "malformed": False, "exact": True, "dense": {"shape": [0], "q": [], "fin": False},
             "cn": [], "cnfin": False, "wmin": 0, "summ": [], "sfin": False, "parts": {"hasw": False, "w": [], "fs": []},
             "perm": [], "orth": 0, "orthfin": False, "nproj": 0, "recon": [], "slices": [],
-            "dense_im": {"shape": [0], "q": [], "fin": False}, "dtype": "", "steps": []}
+            "dense_im": {"shape": [0], "q": [], "fin": False}, "dtype": "", "steps": [], "recon_hi": [], "slices_lo": [], "pdtypes": []}
 
 
 def _dense(out, kind, parts, mult=1.0):
@@ -259,6 +259,8 @@ def execute(c, inp):
 
 def _execute(c, inp):
     import tensorly as tl
+    # a negative spelling of the mode means the same mode
+    tmode = c["mode"] - len(c["shape"]) if c.get("negmode") else c["mode"]
     from tensorly import cp_tensor, tucker_tensor, parafac2_tensor, tt_tensor, preprocessing
     op, kind, how = c["op"], c["kind"], c["how"]
     out = blank_out()
@@ -292,7 +294,7 @@ def _execute(c, inp):
             ft = lf.fresh("cp", inp)
             if how == "object":
                 ft = cp_tensor.CPTensor(ft)
-            w, fs = cp_tensor.cp_flip_sign(ft, mode=c["mode"])
+            w, fs = cp_tensor.cp_flip_sign(ft, mode=tmode)
             _dense(out, "cp", (w, fs))
             # signs only (sums of integers times one power of two are exact; a tiny negative value must not round to 0)
             wm, ok = qi(float(np.sign(np.min(w))), SUMM_SCALE)
@@ -329,12 +331,16 @@ def _execute(c, inp):
             out["perm"] = [int(x) for x in np.asarray(perm).ravel()]
         elif op == "pad_tt_rank":
             cores = lf.fresh(kind, inp)
+            if c.get("cmix", "none") != "none":          # cores of different storage types (a complex core gets an imaginary part)
+                cores = [(g + 1j * g[::-1]).astype(dt) if dt == "complex128" else g.astype(dt) for g, dt in zip(cores, c["cdtypes"])]
             if how == "object" and kind == "tt":
                 cores = tt_tensor.TTTensor(cores)
             res = tt_tensor.pad_tt_rank(cores, n_padding=c["npad"], pad_boundaries=c["padb"])
             ex, pj = True, []
             mg = inp.get("mag", {}).get("e", 0)
+            out["pdtypes"] = [str(np.asarray(g).dtype) for g in res]
             for g in res:
+                g = np.real(g) if np.iscomplexobj(g) else g
                 j, e1 = jt_exact(lf.unscale(g, mg))
                 pj.append(j)
                 ex = ex and e1
@@ -359,11 +365,11 @@ def _execute(c, inp):
                     operand = operand / 2.0
                     mult = 2.0
             if how == "tuple":
-                res = fn(ft, operand, c["mode"], keep_dim=c["keep"], copy=c["copy"])
+                res = fn(ft, operand, tmode, keep_dim=c["keep"], copy=c["copy"])
             elif how == "object":
-                res = fn(cls(ft), operand, c["mode"], keep_dim=c["keep"], copy=c["copy"])
+                res = fn(cls(ft), operand, tmode, keep_dim=c["keep"], copy=c["copy"])
             else:
-                res = cls(ft).mode_dot(operand, c["mode"], keep_dim=c["keep"], copy=c["copy"])
+                res = cls(ft).mode_dot(operand, tmode, keep_dim=c["keep"], copy=c["copy"])
             a, fs = res
             if k == "cp" and not _cp_ok(a, fs):
                 out["malformed"] = True
@@ -408,12 +414,25 @@ def _execute(c, inp):
             _dense(out, "p2", (w, fs, ps))
             _orth(out, ps)
         elif op == "svd_compress":
-            slices = [L @ Rm for L, Rm in zip(inp["fs"], inp["rs"])]
-            out["slices"] = [jt(x) for x in slices]
+            gexp = int(c.get("grade", 0))
+            lead, last = [], []
+            for L, Rm in zip(inp["fs"], inp["rs"]):
+                if gexp and L.shape[1] >= 2:         # the last inner component is scaled by 2^-grade
+                    lead.append(L[:, :-1] @ Rm[:-1, :])
+                    last.append(L[:, -1:] @ Rm[-1:, :])
+                else:
+                    lead.append(L @ Rm)
+                    last.append(np.zeros((L.shape[0], Rm.shape[1])))
+            slices = [a + np.ldexp(b, -gexp) for a, b in zip(lead, last)] if gexp else lead
+            out["slices"] = [jt(x) for x in lead]
+            out["slices_lo"] = [jt(x) for x in last]
             thr = 0.0 if c["thr"] == 0 else 1e-6
             mr = None if c["maxrank"] == 0 else int(c["maxrank"])
             scores, loadings = preprocessing.svd_compress_tensor_slices([x.copy() for x in slices], compression_threshold=thr, max_rank=mr)
-            out["recon"] = [jq(S if U is None else np.asarray(U) @ np.asarray(S), DENSE_SCALE) for S, U in zip(scores, loadings)]
+            rec = [np.asarray(S) if U is None else np.asarray(U) @ np.asarray(S) for S, U in zip(scores, loadings)]
+            out["recon"] = [jq(x, DENSE_SCALE) for x in rec]
+            if gexp:
+                out["recon_hi"] = [jq(np.ldexp(x - a, gexp), DENSE_SCALE) for x, a in zip(rec, lead)]
         elif op == "svd_roundtrip":
             w, (A, B, C), ps = lf.fresh("p2", inp)
             slices = [(P @ B * ((w if w is not None else 1) * A[i])) @ C.T for i, P in enumerate(ps)]
